@@ -485,7 +485,11 @@ func runSCIONServer(ctx context.Context, log *slog.Logger, mtrcs *scionServerMet
 					continue
 				}
 
-				ntsresp := nts.NewResponsePacket(cookies, serverCookie.S2C, ntsreq.UniqueID.ID)
+				ntsresp, err := nts.NewResponsePacket(cookies, serverCookie.S2C, ntsreq.UniqueID.ID)
+				if err != nil {
+					log.LogAttrs(ctx, slog.LevelInfo, "failed to create NTS response packet", slog.Any("error", err))
+					continue
+				}
 				err = nts.EncodePacket(&udpLayer.Payload, &ntsresp)
 				if err != nil {
 					log.LogAttrs(ctx, slog.LevelInfo, "failed to encode NTS packet", slog.Any("error", err))
